@@ -159,6 +159,22 @@ func allFields() []fieldRef {
 	return fs
 }
 
+// priceFormula: own cost x multiplier + documented per-byte components under schedule S.
+func priceFormula(sc *Scenario, per map[string]uint64, S map[string]map[string]uint64) (want uint64, exact bool) {
+	exact = true
+	if sc.OwnField != "" {
+		want = S[vmcommon.BuiltInCostString][sc.OwnField] * sc.Mult
+	}
+	for f, m := range per {
+		if m == ^uint64(0) {
+			exact = false
+			continue
+		}
+		want += m * S[vmcommon.BaseOperationCostString][f]
+	}
+	return
+}
+
 // measure runs a scenario in a world built with base schedule S0 on which the given schedule
 // changes were applied through the real factory, and returns the leg and its consumption.
 func measure(c *harness.Ctx, sc *Scenario, changes ...map[string]map[string]uint64) (*Scn, *node.Leg, uint64, bool) {
